@@ -478,7 +478,9 @@ func (st *State) assertProp(id string, cond *smt.Term) {
 		switch {
 		case cond.IsTrue():
 		case cond.IsFalse():
-			st.recordFail(id, "ASSERT", "assertion "+id+" fails on every input of this path")
+			if !st.recordFail(id, "ASSERT", "assertion "+id+" fails on every input of this path") {
+				st.end("INFEASIBLE", "path condition unsatisfiable at assertion %s", id)
+			}
 		default:
 			// a conjunction is discharged conjunct by conjunct (smaller queries)
 			conjs := flattenAnd(cond, nil)
@@ -498,6 +500,9 @@ func (st *State) assertProp(id string, cond *smt.Term) {
 		st.end("ASSERTFAIL", "assertion %s", id)
 	}
 	if !cond.IsTrue() {
+		if _, _, _, uni := st.univariate(cond); !uni {
+			st.multiVar = true
+		}
 		// continue under the assumption that it held
 		v, tmask, _, uni := st.univariate(cond)
 		if uni {
@@ -505,6 +510,7 @@ func (st *State) assertProp(id string, cond *smt.Term) {
 				st.end("ASSERTFAIL", "assertion %s", id)
 			}
 			st.refine(v, tmask)
+			cond = st.domainTerm(v, tmask)
 		}
 		st.assertAtLevel(cond)
 	}
